@@ -77,7 +77,7 @@ def main(argv=None):
             if n_viol >= MAX_REPORTED:
                 break
             # same path as replaying from the file: JSON round trip first
-            case = common.dec(json.loads(json.dumps(common.enc(case), default=str)))
+            case = common.dec(json.loads(json.dumps(common.enc(case, True), default=str)))
             from . import bfs as _bfs
 
             _bfs.globals_state().restore(())
